@@ -11,6 +11,8 @@ import (
 	"testing"
 	"time"
 
+	"github.com/fatih/color"
+
 	"grog/internal/zzsim/simrt"
 )
 
@@ -101,10 +103,16 @@ func TestSim(t *testing.T) {
 	signal.Notify(sigc, syscall.SIGUSR2)
 	signal.Stop(sigc)
 
+	// grog prints to stdout (fmt.Print, color.Red, TeaWriter); keep the worker's output for
+	// infrastructure messages only
+	if devnull, err := os.OpenFile(os.DevNull, os.O_WRONLY, 0); err == nil {
+		os.Stdout = devnull
+		color.Output = devnull
+	}
 	outPath := os.Getenv("SIM_OUT")
 	out, err := os.OpenFile(outPath, os.O_CREATE|os.O_WRONLY|os.O_APPEND, 0644)
 	if err != nil {
-		fmt.Println("SIMWORKER-INFRA: cannot open SIM_OUT:", err)
+		fmt.Fprintln(os.Stderr, "SIMWORKER-INFRA: cannot open SIM_OUT:", err)
 		os.Exit(2)
 	}
 	defer out.Close()
@@ -115,7 +123,7 @@ func TestSim(t *testing.T) {
 		world := os.Getenv("SIM_WORLD")
 		mk := worldFactory(world, params)
 		if mk == nil {
-			fmt.Println("SIMWORKER-INFRA: unknown world", world)
+			fmt.Fprintln(os.Stderr, "SIMWORKER-INFRA: unknown world", world)
 			os.Exit(2)
 		}
 		base := uint64(envInt("SIM_SEED", 1))
@@ -155,12 +163,12 @@ func TestSim(t *testing.T) {
 	case "replay", "shrink":
 		data, err := os.ReadFile(os.Getenv("SIM_REPLAY"))
 		if err != nil {
-			fmt.Println("SIMWORKER-INFRA: cannot read replay:", err)
+			fmt.Fprintln(os.Stderr, "SIMWORKER-INFRA: cannot read replay:", err)
 			os.Exit(2)
 		}
 		var rf ReplayFile
 		if err := json.Unmarshal(data, &rf); err != nil {
-			fmt.Println("SIMWORKER-INFRA: bad replay file:", err)
+			fmt.Fprintln(os.Stderr, "SIMWORKER-INFRA: bad replay file:", err)
 			os.Exit(2)
 		}
 		if rf.Params == nil {
@@ -168,7 +176,7 @@ func TestSim(t *testing.T) {
 		}
 		mk := worldFactory(rf.World, rf.Params)
 		if mk == nil {
-			fmt.Println("SIMWORKER-INFRA: unknown world", rf.World)
+			fmt.Fprintln(os.Stderr, "SIMWORKER-INFRA: unknown world", rf.World)
 			os.Exit(2)
 		}
 		opt := Options{World: rf.World, Mode: rf.Mode, Params: rf.Params, KeepTrace: true}
@@ -189,7 +197,7 @@ func TestSim(t *testing.T) {
 		shrunk := shrink(rf, run)
 		writeJSONLine(out, shrunk)
 	default:
-		fmt.Println("SIMWORKER-INFRA: unknown SIM_MODE", mode)
+		fmt.Fprintln(os.Stderr, "SIMWORKER-INFRA: unknown SIM_MODE", mode)
 		os.Exit(2)
 	}
 }
